@@ -17,7 +17,7 @@ CHECKS = {
 
 CHECKS.update({
     "C15": ("codec", "differential runtime monitor (via cfg-guarded re-export) vs octets' strict RFC 7541 Huffman decoder and a 128-bit prefixed-integer reference; complete enumeration of short strings / Huffman payloads, padding and EOS mutations",
-            "Every string/integer encode and decode executed is compared with independent implementations; accept/reject and output must agree. Short domains are enumerated completely (strings <= 2 B, H=1 payloads <= 2 B quick / <= 3 B thorough), the rest generated. Held-on-observed.",
+            "Every string/integer encode and decode executed is compared with independent implementations; accept/reject and output must agree. Short domains are enumerated completely (strings <= 2 B, H=1 payloads <= 2 B quick / <= 3 B thorough), the rest generated; every integer is also decoded from a buffer cut in two at every position, every string at a random one. Held-on-observed.",
             "Trusts octets 0.3.7 Huffman tables and refimpl/qpack.rs integer codec; implementation limits above 2^62 / >= 10 continuation bytes are don't-care; two known findings (overlong padding, EOS at end) are listed in known_findings.json.",
             "DESIGN.md §4 C15"),
     "C18": ("codec", "differential runtime monitor: Datagram encode drained under PRNG-chosen Buf consumption patterns vs ref_varint(S/4)||P; decode vs reference incl. range/truncation errors; complete enumeration k < 2^16 and byte strings <= 2/3 B",
@@ -53,19 +53,19 @@ CHECKS.update({
 
 CHECKS.update({
     "C10": ("simquic+sched", "size-oracle runtime monitor: a raw peer sends/advertises exact RFC 9114 §4.2.2 sizes (reference encoder) around every limit; accept/refuse decisions, 431 behaviour and the sizes of HEADERS frames h3 writes (reference decoder) are compared with the oracle",
-            "The grid limits x (L-2..L+2) x field counts x {request, response, trailers} x {receive, send} x roles x {SETTINGS applied, never delivered, arriving between stream creation and the send} x {whole, split stream} is run plus random sizes; every decision must equal s <= L and no oversized HEADERS may reach the wire. Held-on-observed.",
+            "The grid limits x (L-2..L+2) x field counts x {request, response, trailers} x {receive, send} x roles x {SETTINGS applied, applied without naming a limit, never delivered, arriving between stream creation and the send} x {whole, split stream} is run plus random sizes; every decision must equal s <= L and no oversized HEADERS may reach the wire. Held-on-observed.",
             "Trusts refimpl/qpack.rs for sizes; SETTINGS timing made deterministic by two phases; sizes above ~70 KB not constructed.",
             "DESIGN.md §4 C10"),
     "C12": ("simquic+sched", "three-valued reference-predicate runtime monitor (MUST_REJECT / MUST_ACCEPT / DONT_CARE) over generated field lists, checked against h3's header validation directly and end to end through a raw peer; wire-order monitor for sent HEADERS",
-            "10^5 (quick) field lists with single and combined defects go through Header::try_from/into_*_parts, thousands more are injected end to end (outcome must be StreamError H3_MESSAGE_ERROR without connection error, or delivery with equal content), and the HEADERS frames of generated messages are decoded by the reference to check pseudo-field order/uniqueness/values. Held-on-observed.",
+            "10^5 (quick) field lists with single and combined defects (bad value bytes at either edge, in the middle or alone) go through Header::try_from/into_*_parts, thousands more are injected end to end (outcome must be StreamError H3_MESSAGE_ERROR without connection error, or delivery with equal content), and the HEADERS frames of generated messages are decoded by the reference to check pseudo-field order/uniqueness/values. Held-on-observed.",
             "Trusts the predicate in props/c12.rs (RFC latitude is DONT_CARE) and the reference QPACK codec.",
             "DESIGN.md §4 C12"),
     "C13": ("simquic+sched", "complete enumeration of builder configurations against a raw peer with reference parsing of the emitted SETTINGS; reference SETTINGS model vs applied values observed through public getters / HeaderTooBig for received payloads (permutations, duplicates, reserved ids, varint forms, truncations)",
-            "All 2024 builder configurations are built (no panic, one well-formed SETTINGS frame, exact values, grease iff on); thousands of received payloads are judged by the reference model and the applied values read back; defaults checked before SETTINGS arrive. Held-on-observed; the configuration space is covered completely.",
+            "All 2024 builder configurations are built (no panic, one well-formed SETTINGS frame, exact values, grease iff on); thousands of received payloads (up to 55 entries, hundreds of bytes, delivered in pieces) are judged by the reference model and the applied values read back; defaults checked before SETTINGS arrive. Held-on-observed; the configuration space is covered completely.",
             "Trusts refimpl/frames.rs::judge_settings; boolean settings > 1 and repeated unknown ids are don't-care; max_webtransport_sessions not observable on receive.",
             "DESIGN.md §4 C13"),
     "C14": ("simquic+sched", "online RFC 9114 reference checker over every byte stream written by real h3 endpoints running generated API programs under PRNG write-acceptance patterns; DATA frames matched against the buffers handed to send_data (Bytes and segmented Buf)",
-            "Thousands of API programs (finish/drop/reset endings, split halves, shutdown(n), configurations, 1-byte write acceptance) per run; every stream h3 wrote is parsed by the reference and every DATA frame compared with its send_data buffer. Held-on-observed.",
+            "Thousands of API programs (finish/drop/reset endings, split halves, shutdown(n), configurations, 1-byte write acceptance) per run; every stream h3 wrote is parsed by the reference (incl. GOAWAY identifiers that never increase and are request stream ids) and every DATA frame compared with its send_data buffer. Held-on-observed.",
             "Trusts refimpl/wire.rs; streams abandoned mid-frame are not judged for completeness; implicit FIN on drop (Quinn behaviour) is not a finish.",
             "DESIGN.md §4 C14"),
 })
@@ -90,7 +90,7 @@ CHECKS.update({
             "Trusts the reference codec and simulator; a client seeing FIN before HEADERS is don't-care; RESET may overtake data.",
             "DESIGN.md §4 C07"),
     "C20": ("codec", "history checker with an executable RFC 9204 reference model (dynamic table, encoder/decoder instruction parsers, section resolver): generated histories of sections, sliced/late encoder-stream delivery, delayed/withheld acknowledgements and cancellations, through the cfg-guarded stateful Encoder/Decoder",
-            "20 000 (quick) / 2 000 000 (thorough) histories; after every step: h3's decoder returns the input list once its dependencies arrived and only 'blocked' before, the independent reference decoder agrees on the same bytes, table sizes stay within capacity on both sides, and no entry referenced by an unacknowledged section is evicted. Held-on-observed.",
+            "20 000 (quick) / 2 000 000 (thorough) histories over capacities on and off the 32-octet grid; after every step: h3's decoder returns the input list once its dependencies arrived and only 'blocked' before, the independent reference decoder agrees on the same bytes, table sizes stay within capacity on both sides, and no entry referenced by an unacknowledged section is evicted. Held-on-observed.",
             "Trusts refimpl/qpack_dyn.rs (self-checked against RFC 9204 Appendix B vectors); capacity configured out of band on both sides; RFC 9204 §2.1.1/§2.1.2 breaches are recorded, not judged, unless a statement-level symptom follows; one known finding (eviction after stream cancel).",
             "DESIGN.md §4 C20"),
 })
@@ -101,13 +101,13 @@ CHECKS.update({
             "Trusts the reference parser and the simulator's event times; streams the application never pulled carry no obligation.",
             "DESIGN.md §4 C08"),
     "C09": ("simquic+sched", "handle-liveness history checker with quiescence-based bounded-progress oracle: endings alphabet^k x GOAWAY position enumerated, the harness owns and logs every handle drop; accept() returning None is checked against live handles, accept() pending at quiescence against 'GOAWAY delivered and all handles gone'",
-            "All histories of <= 2 (quick) / <= 3 (thorough) requests over the 8 endings x every GOAWAY position are run (3 schedules each) plus sampled longer ones. Safety and bounded progress are decided on the totally ordered event log and at executor quiescence, not on wall-clock. Held-on-observed.",
+            "All histories of <= 2 (quick) / <= 3 (thorough) requests over the 8 endings x every GOAWAY position are run (3 schedules each) plus sampled longer ones, with both accept APIs, shuffled release order, the server's own shutdown, and worker-pool bursts of up to 71 requests in progress at once whose endings all fall between two polls of accept(). Safety and bounded progress are decided on the totally ordered event log and at executor quiescence, not on wall-clock. Held-on-observed.",
             "Trusts the simulator's quiescence detection; QPACK failures excluded (connection errors).",
             "DESIGN.md §4 C09"),
 })
 
 CHECKS.update({
-    "C17": ("quinnrig", "byte-conservation / identifier / error-mapping runtime monitor over real Quinn loopback connections: the h3_quinn adapter is driven through the h3::quic traits against a raw quinn peer with flow-control windows swept from 1 byte to 1 MiB (arbitrary partial writes), premature second writes, an id-query state matrix incl. pending and abandoned reads, peer close/reset/stop/timeout with code sets; unframed writes (poll_send) for conservation and error classes; AddressSanitizer build in the thorough tier",
+    "C17": ("quinnrig", "byte-conservation / identifier / error-mapping runtime monitor over real Quinn loopback connections: the h3_quinn adapter is driven through the h3::quic traits against a raw quinn peer with flow-control windows swept from 1 byte to 1 MiB (arbitrary partial writes), premature second writes, an id-query state matrix incl. pending and abandoned reads, peer close/reset/stop/timeout with code sets; unframed writes (poll_send) for conservation and error classes, and an unframed write behind a frame that send_data accepted but has not finished (refused, or strictly behind it - never inside); AddressSanitizer build in the thorough tier",
             "66 (quick) / ~3000 (thorough) real connections; the raw peer's received byte string must equal the reference-encoded frames of every accepted send_data exactly once and in order, premature writes must be refused, send_id/recv_id must equal Quinn's id in all 14 read/write states without panicking, and peer conditions must map to the right h3 error class with the code preserved. Wall-clock is a watchdog only (inconclusive). Held-on-observed.",
             "Real sockets: evaluation counts vary slightly between runs; scenarios hit by Quinn/loopback trouble are discarded (inconclusive above 2 %); trusts quinn 0.11's own ids and the reference frame encoder.",
             "DESIGN.md §4 C17"),
